@@ -37,7 +37,7 @@ theorem reload_table_facts (P : Params V) (L : Layout) (hL : L.Pos) (d0 d d' : D
     ∃ t, mergeAll (newTable (prep d).size) ([⟨0, i.rows⟩] :: chain0) = .ok t ∧ ReloadFacts P d0 d d' t := by
   have pf := prep_facts d0 d chain0 hb hi
   have hi' := inv_save_ok P L hL d0 d d' chain0 i hb hi h
-  obtain ⟨w, rows, hw, hr, hst, hl, _, _, _, hrows⟩ := save_ok_spec P L d d' i h
+  obtain ⟨w, rows, hw, hr, hst, hl, _, _, _, hrows, hsize⟩ := save_ok_spec P L d d' i h
   subst hrows
   obtain ⟨f1, f2, f3, _⟩ := writeChanges_frame P L _ _ _ _ _ hw pf.inv.sorted
   obtain ⟨k1, ⟨ext, k2, k3⟩, k4, k5⟩ := writeChanges_ok P L _ hL.1 _ _ _ hw pf.inv.sorted pf.inv.objs_lt
@@ -148,14 +148,13 @@ theorem trailer_ext (a b : Trailer V) (h1 : a.root = b.root) (h2 : a.info = b.in
 
 /-- **the saved bytes load again**, with the table of `reload_table_facts` and the same trailer -/
 theorem reload_after_save (P : Params V) (L : Layout) (hL : L.Pos) (d0 d d' : Doc V) (chain0) (i : SaveInfo)
-    (hb : BaseOK d0 chain0) (hi : Inv d0 d) (h : save P L d = (d', .ok i))
-    (hsize : d.st.refs.length + 2 ≤ MAX_ID) (c : Bool) :
+    (hb : BaseOK d0 chain0) (hi : Inv d0 d) (h : save P L d = (d', .ok i)) (c : Bool) :
     ∃ t, reload d'.st c = .ok ⟨reloaded d'.st t c, d.tr⟩ ∧ ReloadFacts P d0 d d' t := by
   have pf := prep_facts d0 d chain0 hb hi
   have hi' := inv_save_ok P L hL d0 d d' chain0 i hb hi h
   obtain ⟨t, ht, facts⟩ := reload_table_facts P L hL d0 d d' chain0 i hb hi h
   refine ⟨t, ?_, facts⟩
-  obtain ⟨w, rows, hw, hr, hst, hl, _, _, _, hrows⟩ := save_ok_spec P L d d' i h
+  obtain ⟨w, rows, hw, hr, hst, hl, _, _, _, hrows, hsize⟩ := save_ok_spec P L d d' i h
   subst hrows
   obtain ⟨k1, _, _, _⟩ := writeChanges_ok P L _ hL.1 _ _ _ hw pf.inv.sorted pf.inv.objs_lt
   simp only at k1
